@@ -250,8 +250,9 @@ def py_spec_why(r, shared=False):
         return 'an underlying function ran with enable_count < 1 (not under the profiler)'
     if run_ids(r['runs1']) != run_ids(r['orig']):
         return 'the decorated object does not execute the same underlying functions as the original'
-    if r['hits'] != r['execs']:
-        return 'reported hit counts %r differ from the exact execution counts %r' % (r['hits'], r['execs'])
+    if r['hits'] != r['execs_all']:
+        return ('reported hit counts %r differ from the exact execution counts %r (per function: first line, middle / '
+                'raising line, finally line, first-suspension line)' % (r['hits'], r['execs_all']))
     for f in run_ids(r['runs1']):
         if f != -2 and r['funcs1'].count(f) != 1 and not shared:
             return 'function %d is registered %d times' % (f, r['funcs1'].count(f))
@@ -290,8 +291,8 @@ def sib_why(c, r):
         for f in run_ids(runs):
             if f != -2 and r['sib_regs'].count(f) != 1:
                 return 'function %d of an object decorated in a row is registered %d times' % (f, r['sib_regs'].count(f))
-    if r['sib_hits'] != r['sib_execs']:
-        return 'hit counts %r of the objects decorated in a row differ from the exact executions %r' % (r['sib_hits'], r['sib_execs'])
+    if r['sib_hits'] != r['sib_execs_all']:
+        return 'hit counts %r of the objects decorated in a row differ from the exact executions %r' % (r['sib_hits'], r['sib_execs_all'])
     return None
 
 
@@ -299,7 +300,7 @@ def py_spec(r, shared=False):
     return py_spec_why(r, shared) is None
 
 
-def run_cases(impl, cases, per=300):
+def run_cases(impl, cases, per=100):
     chunks = core.chunks(cases, per)
 
     def one(ch):
@@ -314,14 +315,14 @@ def coq_row(c, r):
     obs = '(mk_obs %s %s %s %s %s %s %s %s)' % (zl(r['funcs1']), zl(r['shape1']), zl(r['funcs2']), zl(r['shape2']),
                                                zl(r['orig']), zl(r['runs1']), zl(r['runs2']), zl(r['execs']))
     plan = core.coq_list(['(%s, %s)' % (ACC[a], core.coq_z(d)) for a, d in r['plan']])
-    main = '(case_ok %s %s %s %s %s)' % (coq_term(c['term']), zl(r['regs0']), plan, obs, zl(r['hits']))
+    main = '(case_ok %s %s %s %s %s %s)' % (coq_term(c['term']), zl(r['regs0']), plan, obs, zl(r['hits']), zl(r['execs_all']))
     sibs = c.get('before', [])
     if not sibs:
         return main
-    return '(both %s (sibs_ok %s %s %s %s %s %s %s))' % (
+    return '(both %s (sibs_ok %s %s %s %s %s %s %s %s))' % (
         main, ACC[r['sib_access']], core.coq_list([coq_term(x) for x in sibs]), zl(r['sib_regs']),
         core.coq_list([zl(x) for x in r['sib_shapes']]), core.coq_list([zl(x) for x in r['sib_runs']]),
-        zl(r['sib_execs']), zl(r['sib_hits']))
+        zl(r['sib_execs']), zl(r['sib_hits']), zl(r['sib_execs_all']))
 
 
 def run(tier, seed):
@@ -410,15 +411,17 @@ def run(tier, seed):
         random_cases=scope['random'], random_max_depth=scope['random_max_depth'],
         depth_histogram=dh, top_constructor_histogram=th, case_kinds=kh,
         consumption_modes=(lambda h: h)({m: sum(r.get('modes', []).count(m) for r in outs) * 3
-                                        for m in ('exhaust', 'close', 'throw', 'drop')}),
+                                        for m in ('exhaust', 'raise', 'close', 'throw', 'drop')}),
         decorated_through_line_profiler_profile=sum(1 for c in cases if c.get('deco') == 'global'),
         functions_from_one_def_with_different_defaults=sum(1 for c in cases if c.get('same_def')),
         cases_with_objects_decorated_in_a_row=sum(1 for c in cases if c.get('before')),
         objects_decorated_in_a_row=sum(len(c.get('before', [])) for c in cases),
         uses_from_a_worker_thread_while_main_is_inside_a_profiled_section=sum(
-            r.get('modes', []).count('thread:worker') for r in outs) * 3,
+            r.get('modes', []).count('thread:worker') for r in outs),
+        other_thread_completes_a_profiled_section_while_the_function_is_running=sum(
+            r.get('modes', []).count('thread:short-other') + r.get('modes', []).count('thread:short-other-w') for r in outs),
         uses_in_main_thread_while_a_worker_is_inside_a_profiled_section=sum(
-            r.get('modes', []).count('thread:main') for r in outs) * 3,
+            r.get('modes', []).count('thread:main') for r in outs),
         cases_with_value_equal_code_objects_in_different_files=sum(
             1 for c in cases if len(leaf_kind_list(c['term'])) != len(set(leaf_kind_list(c['term'])))),
         accesses_performed=sum(len(r.get('plan', [])) for r in outs) * 3,
